@@ -7,7 +7,8 @@ import DclabModel.DriveUtil
     pip <shape> <ax> <ay> <bits>    observed point-in-polygon results of `shape` for the events'
                                     (ax, ay) coordinates → `ok`
     choice <n> <k> <p> …            observed `np.random.choice(arange(n), k, replace=False)` → `ok`
-    set <f> <0|1> <v> | pop <f> <0|1> | polyset <id> <ax> <ay> <shape> <inv> | polyadd <id> |
+    set <f> <0|1> <v> | pop <f> <0|1> | polyset <id> <ax> <ay> <shape> <inv> |
+    polyaxes <id> <ax> <ay> | polypoints <id> <shape> | polyinv <id> <b> | polyadd <id> |
     polyrm <id> | invalid <b> | enable <b> | limit <k> | manual <i> <b> | reset
                                     → `ok` | `err:key` | `err:value`
     apply <f> …                     → `<out> all=<bits> box=<bits> poly=<bits> inv=<bits> ## <spec bits | raise>`
@@ -85,6 +86,15 @@ def handle (d : D) (line : String) : D × String :=
   | ["polyset", id, ax, ay, s, inv] => match id.toNat?, ax.toNat?, ay.toNat?, s.toNat? with
     | some id, some ax, some ay, some s => doOp d (.polySet id ⟨ax, ay, s, inv == "1"⟩)
     | _, _, _, _ => (d, "bad-op")
+  | ["polyaxes", id, ax, ay] => match id.toNat?, ax.toNat?, ay.toNat? with
+    | some id, some ax, some ay => doOp d (.polyAxes id ax ay)
+    | _, _, _ => (d, "bad-op")
+  | ["polypoints", id, sh] => match id.toNat?, sh.toNat? with
+    | some id, some sh => doOp d (.polyPoints id sh)
+    | _, _ => (d, "bad-op")
+  | ["polyinv", id, b] => match id.toNat? with
+    | some id => doOp d (.polyInv id (b == "1"))
+    | none => (d, "bad-op")
   | ["polyadd", id] => match id.toNat? with
     | some id => doOp d (.polyAdd id)
     | none => (d, "bad-op")
